@@ -31,8 +31,9 @@ MkSym(k, ts) == MkCandle(ts, R(Sym[k][1]), R(Sym[k][2]), R(Sym[k][3]), R(Sym[k][
 VARIABLES mcfg, raw, st, reg, pend, nops, last
 vars == <<mcfg, raw, st, reg, pend, nops, last>>
 \* st = [cs, work]; reg = sequence of Menu indices; pend = set of Menu indices with readings
-\* pending (purged or never calculated); last = the kind of the last step
+\* pending (purged or never calculated); last = the last step [op, n = Menu index aimed at, i = position]
 
+Op(o, n, i) == [op |-> o, n |-> n, i |-> i]
 Regs == [k \in 1..Len(reg) |-> Menu[reg[k]]]
 CalcAll(s, ns) ==
   LET RECURSIVE Go(_, _)
@@ -47,7 +48,7 @@ Init ==
   /\ st = [cs |-> <<>>, work |-> {}]
   /\ pend = {}
   /\ nops = 0
-  /\ last = "init"
+  /\ last = Op("init", 0, 0)
 
 AppendStep ==
   /\ \E n \in 1..2 : \E ks \in [1..n -> 1..Len(Sym)] : \E gs \in [1..n -> {1, 2}] :
@@ -59,7 +60,7 @@ AppendStep ==
              /\ raw' = raw \o new
              /\ st' = CalcAll([cs |-> m.cs, work |-> {}], reg)
   /\ pend' = {}
-  /\ last' = "append"
+  /\ last' = Op("append", 0, 0)
   /\ UNCHANGED <<mcfg, reg, nops>>
 
 Maint ==
@@ -67,18 +68,19 @@ Maint ==
   /\ nops' = nops + 1
   /\ \E k \in 1..Len(reg) :
        LET n == reg[k]  c == Menu[n] IN
-       \/ /\ st' = Calculate([st EXCEPT !.work = {}], c) /\ pend' = pend \ {n} /\ last' = "calculate"
+       \/ /\ st' = Calculate([st EXCEPT !.work = {}], c) /\ pend' = pend \ {n} /\ last' = Op("calculate", n, 0)
           /\ UNCHANGED reg
-       \/ /\ st' = [cs |-> Purge(st.cs, c), work |-> {}] /\ pend' = pend \cup {n} /\ last' = "purge"
+       \/ /\ st' = [cs |-> Purge(st.cs, c), work |-> {}] /\ pend' = pend \cup {n} /\ last' = Op("purge", n, 0)
           /\ UNCHANGED reg
        \/ /\ st' = Calculate([cs |-> Purge(st.cs, c), work |-> {}], c) /\ pend' = pend \ {n}
-          /\ last' = "recalculate" /\ UNCHANGED reg
+          /\ last' = Op("recalculate", n, 0) /\ UNCHANGED reg
        \/ /\ n \notin pend
-          /\ \E i \in 1..Len(st.cs) : st' = CalculateIndex([st EXCEPT !.work = {}], c, i)
-          /\ pend' = pend /\ last' = "calculate_index" /\ UNCHANGED reg
+          /\ \E i \in 1..Len(st.cs) : /\ st' = CalculateIndex([st EXCEPT !.work = {}], c, i)
+                                       /\ last' = Op("calculate_index", n, i)
+          /\ pend' = pend /\ UNCHANGED reg
        \/ /\ Len(reg) > 1
           /\ st' = [cs |-> Purge(st.cs, c), work |-> {}]
-          /\ reg' = SelectSeq(reg, LAMBDA x : x # n) /\ pend' = pend \ {n} /\ last' = "remove"
+          /\ reg' = SelectSeq(reg, LAMBDA x : x # n) /\ pend' = pend \ {n} /\ last' = Op("remove", n, 0)
   /\ UNCHANGED <<mcfg, raw>>
 
 Next == AppendStep \/ Maint
@@ -102,7 +104,7 @@ C14_Idempotent ==
 
 \* C02: an append never changes a closed candle (all but the forming bucket of a timeframe)
 C02_NoRepaint ==
-  (last' = "append" /\ pend = {}) =>
+  (last'.op = "append" /\ pend = {}) =>
      LET n == Len(st.cs) - (IF mcfg.tf # 0 THEN 1 ELSE 0)
      IN \A i \in 1..n : i <= Len(st'.cs) /\ CsEq(<<st'.cs[i]>>, <<st.cs[i]>>)
 
@@ -110,16 +112,16 @@ C02_NoRepaint ==
 C07_BoundedWork ==
   \* ("after warm-up": with a single candle the resume index is the candle itself)
   LET keep == Len(st.cs) - (IF mcfg.tf # 0 THEN 1 ELSE 0)
-  IN (last' = "append" /\ pend = {} /\ keep >= 2) => \A w \in st'.work : w[2] > keep
+  IN (last'.op = "append" /\ pend = {} /\ keep >= 2) => \A w \in st'.work : w[2] > keep
 
 \* C13: a call aimed at one indicator leaves the column of the other untouched
 C13_NoInterference ==
-  (last' \in {"purge", "recalculate", "calculate_index", "calculate"} /\ Len(reg) = 2 /\ reg' = reg) =>
+  (last'.op \in {"purge", "recalculate", "calculate_index", "calculate"} /\ Len(reg) = 2 /\ reg' = reg) =>
      \E k \in 1..2 : Column(st'.cs, Menu[reg[k]].name) = Column(st.cs, Menu[reg[k]].name)
 
 \* C14: recalculate reproduces what it replaced; calculate_index reproduces the reading
 C14_Reproduce ==
-  (last' \in {"recalculate", "calculate_index"} /\ pend = {}) => CsEq(st'.cs, st.cs)
+  (last'.op \in {"recalculate", "calculate_index"} /\ pend = {}) => CsEq(st'.cs, st.cs)
 
 C02_Action == [][C02_NoRepaint]_vars
 C07_Action == [][C07_BoundedWork]_vars
